@@ -120,3 +120,31 @@ func Munmap(b []byte) error { return syscall.Munmap(b) }
 
 // Getpid .
 func Getpid() int { return syscall.Getpid() }
+
+// Raw system calls: mprotect issued through syscall.Syscall is the same environment seam.
+const (
+	SYS_MPROTECT = syscall.SYS_MPROTECT
+	SYS_MMAP     = syscall.SYS_MMAP
+	SYS_MUNMAP   = syscall.SYS_MUNMAP
+)
+
+// Syscall forwards a raw system call; SYS_MPROTECT is logged and bracketed by scheduling points
+// exactly like Mprotect.
+func Syscall(trap, a1, a2, a3 uintptr) (r1, r2 uintptr, err Errno) {
+	if trap != syscall.SYS_MPROTECT {
+		return syscall.Syscall(trap, a1, a2, a3)
+	}
+	sched.Point("syscall.Syscall(SYS_MPROTECT):request", nil)
+	r1, r2, err = syscall.Syscall(trap, a1, a2, a3)
+	if Logging && a2 > 0 {
+		ProtLog = append(ProtLog, ProtCall{a1, int(a2), int(a3), sched.Self(), err != 0})
+		if err == 0 {
+			ps := uintptr(syscall.Getpagesize())
+			for p := a1 &^ (ps - 1); p < a1+a2; p += ps {
+				Pages[p] = int(a3)
+			}
+		}
+	}
+	sched.Point("syscall.Syscall(SYS_MPROTECT):answer", nil)
+	return
+}
